@@ -162,12 +162,14 @@ CLAIMED["C16"] = dict(
     ref="DESIGN.md section 3 C16")
 
 CLAIMED["C06"] = dict(
-    technique="CrossHair symbolic strings through rdflib's HexTuples serializer and parser (term classes replaced by recorders, graph classes by recording stand-ins, json by a structural copy of the six-element array)",
-    text="Partial claim: HexTuples only, at the level of the statement <-> six-string mapping. The real HextuplesSerializer (__init__, serialize, _hex_line, "
+    technique="CrossHair symbolic strings through rdflib's HexTuples serializer and parser and the TriX reader's SAX handler (term classes replaced by recorders, graph classes by recording stand-ins, json by a structural copy of the six-element array)",
+    text="Partial claim: HexTuples at the level of the statement <-> six-string mapping, and the TriX reader's event handler. The real HextuplesSerializer (__init__, serialize, _hex_line, "
          "_iri_or_bn, _context_str) writes a dataset of 1-2 quads and the real HextuplesParser (parse, _parse_hextuple) reads the lines back: every statement "
          "must reappear in exactly the graph it was in (default, IRI-named, blank-node-named), 11 dataset shapes (subject/object/graph kinds, the same triple in "
          "two graphs, a blank node shared by two graphs), every term content = one concrete first character + a symbolic string of length <= 2 (blank node labels 3; "
-         "thorough 3/4). N-Quads, TriG, TriX, JSON-LD, RDF Patch (text scanners over term contents) and the JSON text of HexTuples are NOT covered.",
+         "thorough 3/4). The TriX reader's SAX handler (TriXHandler) is driven with the events of a document of 1-2 <graph> elements (name element uri / id / none, "
+         "symbolic names and contents): every triple goes to the graph its <graph> element names, unnamed graphs are graphs of their own, blank node labels map "
+         "one-to-one. N-Quads, TriG, JSON-LD, RDF Patch, the TriX writer (text scanners over term contents) and the JSON / XML text level are NOT covered.",
     note="Trusted base: CrossHair 0.0.110's model of Python str/list/dict, z3, the recorder classes standing for URIRef/BNode/Literal (str interface delegated "
          "to the symbolic text), the recording stand-ins for Graph/Dataset/ConjunctiveGraph, the structural copy standing for json.dumps/loads. Only the RDF 1.1 "
          "identification of a plain literal with its xsd:string form is accepted as a change.",
